@@ -241,29 +241,29 @@ impl CharacterData {
                 Some(0f64)
             } else if let Some(hexval) = text
                 .strip_prefix("0x")
-                .and_then(|hextxt| u64::from_str_radix(hextxt, 16).ok())
+                .and_then(|hextxt| float_from_radix_digits(hextxt, 4))
             {
-                Some(hexval as f64)
+                hexval.is_finite().then_some(hexval)
             } else if let Some(hexval) = text
                 .strip_prefix("0X")
-                .and_then(|hextxt| u64::from_str_radix(hextxt, 16).ok())
+                .and_then(|hextxt| float_from_radix_digits(hextxt, 4))
             {
-                Some(hexval as f64)
+                hexval.is_finite().then_some(hexval)
             } else if let Some(binval) = text
                 .strip_prefix("0b")
-                .and_then(|bintxt| u64::from_str_radix(bintxt, 2).ok())
+                .and_then(|bintxt| float_from_radix_digits(bintxt, 1))
             {
-                Some(binval as f64)
+                binval.is_finite().then_some(binval)
             } else if let Some(binval) = text
                 .strip_prefix("0B")
-                .and_then(|bintxt| u64::from_str_radix(bintxt, 2).ok())
+                .and_then(|bintxt| float_from_radix_digits(bintxt, 1))
             {
-                Some(binval as f64)
+                binval.is_finite().then_some(binval)
             } else if let Some(octval) = text
                 .strip_prefix('0')
-                .and_then(|octtxt| u64::from_str_radix(octtxt, 8).ok())
+                .and_then(|octtxt| float_from_radix_digits(octtxt, 3))
             {
-                Some(octval as f64)
+                octval.is_finite().then_some(octval)
             } else {
                 // normal float conversion
                 text.parse().ok()
@@ -404,6 +404,34 @@ impl PartialOrd for CharacterData {
 }
 
 impl Eq for CharacterData {}
+
+/// convert the digits of a hexadecimal, octal or binary number (4, 3 or 1 bits per digit) to f64
+///
+/// The number may be longer than 64 bits: the leading 64 significant bits are collected, all further bits only
+/// count how far the result must be scaled and whether any of them is set. This is enough to round correctly
+/// (to nearest, ties to even). The result is infinite if the number is too large for f64.
+/// Returns None if the text is empty or contains anything but digits.
+fn float_from_radix_digits(digits: &str, bits_per_digit: u32) -> Option<f64> {
+    if digits.is_empty() {
+        return None;
+    }
+    let (mut mantissa, mut dropped_bits, mut sticky) = (0u64, 0i32, false);
+    for c in digits.chars() {
+        let digit = u64::from(c.to_digit(1 << bits_per_digit)?);
+        for pos in (0..bits_per_digit).rev() {
+            let bit = (digit >> pos) & 1;
+            if mantissa >> 63 == 0 {
+                mantissa = (mantissa << 1) | bit;
+            } else {
+                dropped_bits = dropped_bits.saturating_add(1);
+                sticky |= bit == 1;
+            }
+        }
+    }
+    // the conversion to f64 rounds the 64 bits to nearest even; a set lowest bit keeps a value
+    // that has non-zero bits below them from being mistaken for an exact tie
+    Some((mantissa | u64::from(sticky)) as f64 * 2f64.powi(dropped_bits))
+}
 
 fn escape_text(input: &str) -> Cow<str> {
     if input.contains(['&', '>', '<', '\'', '"']) {
